@@ -151,6 +151,32 @@ end examples
 /-! ### witnesses over the shipped table (machine-checked on the tree they were written for; a changed table
 value can change them without touching a property theorem, hence here and not in the theorem module) -/
 
+/-- order after a history: a = 3 5/8 in (9.2075 cm), b = 8 3/4 cm; after `float(b.value)`, `a > b`, a copy of `b`,
+`str(a)` and `b.GetValue('in')`: `a > b` is true, `b > a` and `copy(b) > a` are false, `a <= b` is false, `b <= a` true
+(`i`, `j` below the pool length: the hypotheses of `stir_invisible_order` are met) -/
+example : (match poscDb.simpleQuantity (Sym.ofString "length") (Sym.ofString "in"),
+           poscDb.simpleQuantity (Sym.ofString "length") (Sym.ofString "cm") with
+     | .ok qa, .ok qb =>
+       let a : FSc := ⟨⟨3, R 5 8⟩, qa⟩
+       let b : FSc := ⟨⟨8, R 3 4⟩, qb⟩
+       let small : Rat := 1 / 100000000
+       let s := (OSession.mk [a.toOperand, b.toOperand]).run
+         [.float 1, .order .gt 0 1, .copy 1, .show 0, .getValue 1 (Sym.ofString "in")]
+       some (s.pool.length == 3, [s.order poscDb small .gt 0 1, s.order poscDb small .gt 1 0, s.order poscDb small .gt 2 0,
+             s.order poscDb small .le 0 1, s.order poscDb small .le 1 0])
+     | _, _ => none) = some (true, [.ok true, .ok false, .ok false, .ok false, .ok true]) := by decide +kernel
+
+/-- a Scalar against a FractionScalar of another unit after a history, and a cross-type pair (TypeError) -/
+example : (match poscDb.simpleQuantity (Sym.ofString "length") (Sym.ofString "m"),
+           poscDb.simpleQuantity (Sym.ofString "length") (Sym.ofString "cm"),
+           poscDb.simpleQuantity (Sym.ofString "time") (Sym.ofString "s") with
+     | .ok qm, .ok qc, .ok qs =>
+       let small : Rat := 1 / 100000000
+       let s := (OSession.mk [.sc 1 (.simple qm), .fsc ⟨99, R 1 2⟩ (.simple qc), .sc 1 (.simple qs)]).run
+         [.order .lt 1 0, .copy 0, .eq 0 1, .hash 0, .arith 0 1]
+       some (s.order poscDb small .gt 0 1, s.order poscDb small .lt 1 3, s.order poscDb small .lt 0 2)
+     | _, _, _ => none) = some (.ok true, .ok true, .error .type) := by decide +kernel
+
 /-- witness that the hypothesis `NumeratorKept` cannot be dropped on the current code (posc database,
 `SMALL = 1e-8`): with a = FractionScalar(FractionValue(1e-9), 'm') and
 b = FractionScalar(FractionValue(0, (3, 1)), 'nm') (1 nm and 3 nm) both `a > b` and `b > a` are true,
